@@ -47,8 +47,99 @@ def mk_segy(c, nI, nX, nZ, two_d=False, nT=None):
     return f
 
 
+# ---- segyio field-code tables (AX-SEGYIO-ENUM): parsed from the installed segyio, pinned by hash
+import ast as _ast, hashlib as _hl
+TRACEFIELD_PY = '/venv/lib/python3.12/site-packages/segyio/tracefield.py'
+TRACEFIELD_SHA = '93647d1955d04bdac8cc43813c8a982bdd22f57572e8b13722e9e61a1123391d'
+
+
+def _load_tracefields():
+    srcb = open(TRACEFIELD_PY, 'rb').read()
+    ok = _hl.sha256(srcb).hexdigest() == TRACEFIELD_SHA
+    members, keys = {}, {}
+    for node in _ast.parse(srcb).body:
+        if isinstance(node, _ast.ClassDef) and node.name == 'TraceField':
+            for st in node.body:
+                if isinstance(st, _ast.Assign) and isinstance(st.value, _ast.Constant) and isinstance(st.value.value, int):
+                    members[st.targets[0].id] = st.value.value
+        if isinstance(node, _ast.Assign) and getattr(node.targets[0], 'id', None) == 'keys':
+            keys = _ast.literal_eval(node.value)
+    return ok, members, keys
+
+
+TF_PINNED, TF_MEMBERS, TF_KEYS = _load_tracefields()
+TF_ENUMS = sorted(set(TF_MEMBERS.values()))                       # TraceField.enums(): sorted by code (91)
+TF_TRACE_KEYS = [k for k in TF_ENUMS if k not in (233, 237)]      # segyio Field(kind='trace') keys: the 89 header words
+TF_DOTTED = ('segyio.tracefield.TraceField', 'segyio.TraceField', 'segyio.segy.TraceField')
+
+
+def mk_hdr(t, seg=None):
+    h = SObj(None, clsname='$segyhdr')
+    h.fields['t'] = t
+    h.fields['file'] = seg
+    h.fields['__iter__'] = lambda: list(TF_TRACE_KEYS)
+    return h
+
+
+def hdr_value(h, field):
+    """value of one header word of a source trace; a contract may restrict which words are non-zero at all
+    (seg.fields['nonzero_fields']): the others are the constant 0 in every trace"""
+    seg = h.fields.get('file')
+    nz = seg.fields.get('nonzero_fields') if seg is not None else None
+    if nz is not None and field not in nz:
+        return 0
+    return hsrc(h.fields['t'], field)
+
+
 def register(lib):
     M = lib.methods
+    E = lib.ext
+
+    def tf_attr(I, obj, attr):
+        from pyvc.symex import ExtRef
+        if isinstance(obj, ExtRef) and obj.dotted in TF_DOTTED and attr in TF_MEMBERS:
+            return TF_MEMBERS[attr]          # AX-SEGYIO-ENUM: members are ints for ==, hash, int(), arithmetic
+        if isinstance(obj, ExtRef) and obj.dotted in ('segyio.BinField', 'segyio.binfield.BinField') and attr == 'Format':
+            return 3225
+        if isinstance(obj, ExtRef) and obj.dotted == 'segyio.tracefield' and attr == 'keys':
+            k = SObj(None, clsname='$tfkeys')
+            return k
+        return NotImplemented
+    lib.attr_hooks.append(tf_attr)
+
+    def tf_call(I, k):
+        k = untag(k)
+        if not isinstance(k, int):
+            raise Unsupported('TraceField(symbolic)')
+        if k not in TF_ENUMS:
+            raise PyRaise('ValueError', f'{k} is not a valid TraceField')
+        return k
+    for d in TF_DOTTED:
+        E[d] = tf_call
+        E[d + '.enums'] = lambda I: list(TF_ENUMS)
+
+    def tfkeys_get(I, ks, name):
+        # keys[str(TraceField(hw))] == int(hw): the engine keeps TraceField(hw) as the int, so str() gives digits
+        name = untag(name)
+        if isinstance(name, str) and name.isdigit() and int(name) in TF_ENUMS:
+            return int(name)
+        if isinstance(name, str) and name in TF_KEYS:
+            return TF_KEYS[name]
+        raise PyRaise('KeyError', repr(name))
+    M[('$tfkeys', '__getitem__')] = tfkeys_get
+    M[('$tfkeys', 'values')] = lambda I, ks: list(TF_KEYS.values())
+    M[('$tfkeys', 'keys')] = lambda I, ks: list(TF_KEYS.keys())
+
+    def segy_field(I, buf, kind='trace', **kw):
+        """segyio.field.Field(buf, kind='trace'): a mapping over the 89 header words backed by 240 bytes"""
+        if kind != 'trace':
+            raise Unsupported('Field kind ' + str(kind))
+        h = SObj(None, clsname='$segyfield')
+        h.fields['buf'] = buf
+        h.fields['__iter__'] = lambda: list(TF_TRACE_KEYS)
+        return h
+    for d in ('segyio.segy.Field', 'segyio.field.Field', 'segyio.Field'):
+        E[d] = segy_field
 
     def iline_get(I, acc, number):
         """file.iline[n]: (nX, nZ) samples of the inline with NUMBER n; KeyError if n is not an inline number"""
@@ -81,18 +172,15 @@ def register(lib):
         if isinstance(key, SSlice):
             from pyvc.values import slice_bounds
             lo, hi = slice_bounds(key, n)
-            return SymSeq(ops_binop('-', hi, lo), lambda k, lo=lo: mk_hdr(ops_binop('+', lo, k)))
+            return SymSeq(ops_binop('-', hi, lo), lambda k, lo=lo: mk_hdr(ops_binop('+', lo, k), f))
         t = lib.norm_index(key, n)
-        return mk_hdr(t)
+        return mk_hdr(t, f)
     M[('$segy.header', '__getitem__')] = header_get
-
-    def mk_hdr(t):
-        h = SObj(None, clsname='$segyhdr')
-        h.fields['t'] = t
-        return h
 
     def hdr_get(I, h, field):
         field = untag(field)
         field = getattr(field, 'value', field)
-        return hsrc(h.fields['t'], field)
+        return hdr_value(h, field)
     M[('$segyhdr', '__getitem__')] = hdr_get
+    M[('$segyhdr', 'items')] = lambda I, h: [(k, hdr_value(h, k)) for k in TF_TRACE_KEYS]
+    M[('$segyhdr', 'keys')] = lambda I, h: list(TF_TRACE_KEYS)
